@@ -42,6 +42,24 @@ def run(ctx):
     if npairs == 0:
         raise vlib.Inconclusive("no failure pairs compared")
     ctx.cov["failure_pairs"] = npairs
+    # an Invoker the host keeps while the parent VM starts another run with other globals
+    kres = ctx.path("keep.ndjson")
+    ctx.vh("c14keep", kres)
+    nkeep = 0
+    for r in vlib.read_ndjson(kres):
+        if r.get("done"):
+            nkeep = r["n"]
+            continue
+        ctx.evaluations += 2
+        ctx.traces_validated += 1
+        key = "keep|%s|%s|%s" % (r["pooled"], r["between"], r["warm"])
+        ctx.nontrivial.add(key)
+        if not r["ok"]:
+            ctx.violation(key, "Invoker kept across two runs of the parent VM (pooled=%s, between the runs: %s, used before: %s): %s\n%s" % (r["pooled"], r["between"], r["warm"], r["what"], r["src"]),
+                          dict(kind="fail", keep=True, pooled=r["pooled"], between=r["between"], warm=r["warm"], src=r["src"], what=r["what"]))
+    if nkeep == 0:
+        raise vlib.Inconclusive("no kept-Invoker histories ran")
+    ctx.cov["kept_invoker_histories"] = nkeep
     ctx.exhaustive = True
     ctx.assumptions += ["the host functions cbcall / cbcall2 (harness/cmd/vh/sem.go hostCall) use NewInvoker/Acquire/Invoke/Release as stdlib callbacks do",
                         "Go-side calls with too few or too many arguments are not generated (lenient by design)"]
